@@ -235,6 +235,22 @@ def check_step(world, rec, out, si, step, keyparts):
                           f"{where} block {bi} entry {j}: u={uj!r} alpha={aj!r} accepted={bool(acc[j])}")
                 return
         outcome.append("".join("a" if x else "r" for x in acc.tolist()))
+        # ---- (c') outcome: "accepted" is what the state holds afterwards, not what a helper reported - the block is at its proposed
+        # value exactly where u < alpha and at its previous value elsewhere (a NaN ratio is never below a draw)
+        if exact or not bool(((u.double() - a_cmp.double()).abs() <= 1e-5 * a_cmp.double().abs()).any()):
+            after = rec.blocks[bi + 1].pre_value if bi + 1 < len(rec.blocks) else world.read_indep()[var]
+            if rec.is_ind:
+                m = expect_all.reshape((-1,) + (1,) * (b.pre_value.ndim - 1))
+                exp_after = torch.where(m, b.post_value, b.pre_value)
+            else:
+                exp_after = b.post_value if bool(expect_all.reshape(-1)[0]) else b.pre_value
+            C["probe.outcome_judged"] += 1
+            if after is None or not same(after, exp_after):
+                rows = "whole_block" if not rec.is_ind else ("all_rows_kept_previous" if after is not None and same(after, b.pre_value) else "some_rows")
+                violation(out, "decision", f"state_after_step_not_decided_by_u_lt_alpha:{kind}:{rows}",
+                          f"{where} block {bi}: {describe_diff(after, exp_after) if after is not None else 'unset'}; decisions by the rule: "
+                          f"{''.join('a' if x else 'r' for x in expect_all.reshape(-1).tolist())}")
+                return
 
     # ---- (d) target: the four terms are the documented negative log-densities (float64 closed forms)
     if not world.is_mixture and rec.blocks and rec.blocks[-1].terms is not None:
